@@ -3,13 +3,14 @@ CONSTANTS
   Apps <- AllApps
   Catching <- Both
   Verbs <- Verbs2
-  MCLines <- LinesTwo
+  MCLines <- LinesOne
   Pres <- PresNone
   MaxListeners = 0
   ListenerKinds <- NoKinds
   ListenerValues <- NoValues
   OutValues <- ValuesAll
   OutKinds <- KindsAll
+  MCScopes <- ScopesAll
   Emitting = TRUE
 INVARIANT PContained
 INVARIANT PZeroIff
